@@ -4,6 +4,7 @@ import XmppModel.Lemmas.NegotiateDone
 import XmppModel.Lemmas.NegotiateComplete
 import XmppModel.Lemmas.NegotiateForced
 import XmppModel.Lemmas.NegotiateVol
+import XmppModel.Lemmas.NegotiateNs
 /-!
 The invariants of the negotiation machine hold in every reachable configuration (initial
 configuration + preservation by `step`, lifted by induction on the number of steps).
@@ -138,6 +139,13 @@ theorem invV_reach {c : Conf} (h : Reach C O st0 script picks c) : InvV c := by
   · intro h; rcases h with h | h <;> cases h
   · intro h; cases h
   · intro h; cases h
+
+theorem invN_reach {c : Conf} (h : Reach C O st0 script picks c) : InvN C c := by
+  refine reach_ind (P := InvN C) ?_ (fun c _ hc => invN_step C O c hc) c h
+  refine ⟨List.nodup_nil, ?_, ?_, ?_⟩
+  · intro e he; cases he
+  · intro e he; cases he
+  · intro _ h; cases h
 
 theorem allowed_mandatory {cands : List Entry} {e : Entry} (he : e ∈ allowed cands)
     (hr : e.req = true) : ∀ e' ∈ cands, e'.req = true := by
